@@ -107,9 +107,17 @@ structure Cli where
   sid : Option Str := none
   /-- `eio.state` between two interactions -/
   eio : Eio := .disconnected
+  /-- the `reconnection` option (constant) -/
+  reconnection : Bool := false
+  /-- `_reconnect_task` is set: a reconnection effort was started (K7b / C10 owns the effort itself;
+      here it is started and held, so the flag is never cleared) -/
+  effort : Bool := false
   deriving Inhabited
 
 def init : Cli := {}
+
+/-- a client created with `reconnection=b` -/
+def initR (b : Bool) : Cli := { reconnection := b }
 
 /-! ### inputs and outputs -/
 
@@ -163,6 +171,8 @@ inductive Out where
   | contained (e : Err)
   | result (r : Data)
   | raised (e : CErr)
+  /-- `start_background_task(self._handle_reconnect)` -/
+  | effort
   deriving Inhabited
 
 /-! ### helpers -/
@@ -223,11 +233,18 @@ def eioDisconnect (cfg : Cfg) (c : Cli) (reason : Str) : Cli × List Out :=
     ({ r.1 with eio := .disconnected }, .close :: r.2)
   else (c, [])
 
-/-- the tail of engine.io's read loop after a transport error -/
+/-- the end of `_handle_eio_disconnect` when `will_reconnect` (`reconnection` and
+    `eio.state == 'connected'`, i.e. the transport was lost): `if not self._reconnect_task:` start it -/
+def startEffort (c : Cli) : Cli × List Out :=
+  if c.reconnection && !c.effort then ({ c with effort := true }, [.effort]) else (c, [])
+
+/-- the tail of engine.io's read loop after a transport error (`eio.state` is still `'connected'`
+    while `_handle_eio_disconnect` runs, so this is where a reconnection effort starts) -/
 def onLost (cfg : Cfg) (c : Cli) : Cli × List Out :=
   if c.eio = .connected then
     let r := onEioDisconnect cfg c rTransport
-    ({ r.1 with eio := .disconnected }, r.2)
+    let s := startEffort { r.1 with eio := .disconnected }
+    (s.1, r.2 ++ s.2)
   else (c, [])
 
 /-- `disconnect()` -/
